@@ -248,3 +248,46 @@ Theorem copy_payloads mk f nx :
 Proof. apply same_modulo_payloads, add_filtered_is_dbl_F. Qed.
 
 End B.
+
+(* ------------------------------------------------------------------ *)
+(* A second pass with the SAME answers on the SAME (already filtered) forest changes nothing and meets no
+   stop.  This is all the truth there is in "filtering is idempotent": it says nothing once the tree or the
+   answers have changed between the calls -- every call is F of the forest as it is at call time. *)
+Section Idem.
+Variable v : nat -> verdict.
+
+Definition idem_ok (t : rt) : Prop := forall s,
+  match fst (F_t v s t) with None => True | Some t' => F_t v false t' = (Some t', false) end.
+
+Lemma F_f_idem_of l : Forall idem_ok l -> forall s, F_f v false (fst (F_f v s l)) = (fst (F_f v s l), false).
+Proof.
+  induction 1 as [|x l Hx _ IH]; intros s; [reflexivity|].
+  rewrite (F_f_cons v s x l). cbn [fst]. specialize (Hx s). specialize (IH (snd (F_t v s x))).
+  destruct (fst (F_t v s x)) as [x'|]; cbn [ocons]; [|exact IH].
+  rewrite F_f_cons, Hx. cbn [fst snd ocons]. rewrite IH. reflexivity.
+Qed.
+
+Lemma F_t_idem : forall t, idem_ok t.
+Proof.
+  induction t as [id i ch IH] using rt_ind'. intros s. rewrite F_t_unfold. destruct s; [exact Logic.I|].
+  cbv zeta. pose proof (F_f_idem_of ch IH false) as Hk.
+  destruct (v id) eqn:Ev; cbn [fst]; try exact Logic.I.
+  - rewrite F_t_unfold, Ev. cbv zeta. rewrite Hk. reflexivity.
+  - destruct (fst (F_f v false ch)) as [|y ys] eqn:Ek; cbn [is_nil]; [exact Logic.I|].
+    rewrite F_t_unfold, Ev. cbv zeta. rewrite Hk. reflexivity.
+  - rewrite F_t_unfold, Ev. reflexivity.
+  - rewrite F_t_unfold, Ev. reflexivity.
+Qed.
+
+Theorem F_idempotent f : F v (F v f) = F v f /\ snd (F_f v false (F v f)) = false.
+Proof.
+  unfold F. rewrite (F_f_idem_of f); [split; reflexivity|]. apply Forall_forall. intros t _. apply F_t_idem.
+Qed.
+End Idem.
+
+Theorem inplace_second_pass v f : NoDup (ids f) ->
+  filter_inplace v (filter_inplace v f) = filter_inplace v f.
+Proof.
+  intros ND. rewrite (filter_inplace_is_F v f ND), (filter_inplace_is_F v (F v f) (F_NoDup v f ND)).
+  apply F_idempotent.
+Qed.
